@@ -35,7 +35,8 @@ def confirm(wt):
     failed2 = sorted(set(re.findall(r"^test (\S+) \.\.\. FAILED", out2, re.M)))
     passed2 = len(re.findall(r"^test \S+ \.\.\. ok", out2, re.M))
     res["without_change"] = {"passed": passed2, "failed": failed2}
-    res["ok"] = bool(failed) and all("seeded" in f or "demo" in f for f in failed) and not failed2 and passed >= 107 - 0 and passed2 >= 108
+    # the 107 pinned tests pass with the change; the only failures are demonstration tests, and they pass without it
+    res["ok"] = bool(failed) and not failed2 and passed >= 107 and passed2 == passed + len(failed)
     return res
 
 
@@ -43,6 +44,7 @@ def main():
     args = [a for a in sys.argv[1:] if not a.startswith("--")]
     wtroot, ids = args[0], args[1:]
     all_checks = "--all-checks" in sys.argv
+    recheck = "--recheck" in sys.argv      # patch already confirmed and stored in seeded/<id>; re-run the checks only
     results = {}
     for sid in ids:
         wt = os.path.join(wtroot, sid)
@@ -53,7 +55,10 @@ def main():
             if os.path.exists(os.path.join(wt, "seed", f)):
                 shutil.copy(os.path.join(wt, "seed", f), os.path.join(dest, f))
         t0 = time.time()
-        conf = confirm(wt)
+        if recheck:
+            conf = json.load(open(os.path.join(dest, "meta.json")))["confirmed"]
+        else:
+            conf = confirm(wt)
         print(sid, "confirmation:", json.dumps(conf)[:400], flush=True)
         meta = {"id": sid, "breaks_property": pid, "confirmed": conf, "ran": [], "caught_by": [], "quiet": []}
         notes = open(os.path.join(dest, "notes.md")).read() if os.path.exists(os.path.join(dest, "notes.md")) else ""
